@@ -83,7 +83,9 @@ TEXT = {
              "no_wait_cycle / no_control_command_deadlock: the lock requests the source can make while holding a lock (regenerated "
              "with go/types, interprocedural, callbacks and deferred calls included) all go upwards in one order, hence no deadlock "
              "among them for any number of threads. Tie: regenerated facts (guards, reader loop, dispatch, command table, all parser "
-             "messages, lock-request edges with their sites) + differential runs of the real Server + Workceptor over a Unix socket in "
+             "messages, lock-request edges with their sites, the accept loop starting one goroutine per connection and nothing else) + "
+             "the control service on a TLS TCP listener with clients that never start the handshake (new clients must be greeted at "
+             "once) + differential runs of the real Server + Workceptor over a Unix socket in "
              "child processes: structured and malformed lines for every command with fields present/absent and of every JSON type, "
              "unit IDs in memory / on disk only / unknown / with path characters, chunked writes, unterminated lines, 70 kB lines, "
              "several concurrent sessions (releasing, listing, reloading), a probe session after every case.",
